@@ -392,6 +392,18 @@ def r4_algebra(repo: Repo, rep):
         rep.saw(fi)
         rets = [dump(p.ret) for p in paths(fi.node) if p.ret is not RAISE]
         a, b = fi.params[1], fi.params[2]
+        # the new points alone are returned only because nothing was accumulated yet: no test on the new points leads there
+        tmp_sp = {t.id: n.value for n in ast.walk(fi.node) if isinstance(n, ast.Assign) and len(n.targets) == 1 for t in n.targets if isinstance(t, ast.Name)}
+        for p in paths(fi.node):
+            if p.ret is RAISE or dump(p.ret) != b:
+                continue
+            reads = set()
+            for g, pol, k in p.guards:
+                for x in ast.walk(g):
+                    if isinstance(x, ast.Name):
+                        reads |= {y.id for y in ast.walk(tmp_sp[x.id]) if isinstance(y, ast.Name)} if x.id in tmp_sp else {x.id}
+            rep.check(R, b not in reads, fi.site(p.ret_node), fi.fq, "the new points alone are returned only when nothing was accumulated (a test on the accumulated points only)",
+                      f"guards {[dump(g)[:40] for g, pol, k in p.guards]}", f"returns {b} under a test of {b}")
         rep.check(R, set(rets) == {b, f"{a} | {b}"}, fi.site(), fi.fq, "_set_sampled_points appends behind the accumulated points", str(rets), str(rets))
     fi = base.methods.get("_sample_params_independent")
     if fi is not None:
